@@ -315,6 +315,7 @@ def run_sched(case, fs):
     names = world['names']
     log, stats, sig = [], {'ops': 0}, []
     viol = None
+    held = []       # (op, target, object returned, its canonical form then)
 
     def bump(k, n=1):
         stats[k] = stats.get(k, 0) + n
@@ -475,8 +476,17 @@ def run_sched(case, fs):
                 out = call_in_thread(st, ev.evaluate, target)
                 bump('probe:evaluated_from_another_thread')
             else:
+                kept = []
+
+                def capture(t, ev=ev, kept=kept):
+                    v = ev.evaluate(t)
+                    kept.append(v)
+                    return v
                 with st:
-                    out = outcome_of(ev.evaluate, target)
+                    out = outcome_of(capture, target)
+                if kept and out[0] == 'ok' and st.fired is None:
+                    held.append((seq, target, kept[0], out[1]))
+                    del held[:-8]
             bump('sim_steps', st.steps)
             uf.on_pause = None
             if nested:
@@ -509,6 +519,18 @@ def run_sched(case, fs):
                 break
             if fired is not None:
                 continue
+            # a value handed to the caller is the caller's: what is evaluated
+            # afterwards must not change it
+            for s0, t0, v0, c0 in held:
+                if s0 != seq and canon(v0) != c0:
+                    viol = {'tag': 'returned-value-changed-later',
+                            'detail': {'op': seq, 'target': target,
+                                       'returned_by_op': s0,
+                                       'for': t0, 'was': c0,
+                                       'now': canon(v0)}}
+                    break
+            if viol is not None:
+                break
             n_before = seen_eval.get((c, addr), 0)
             seen_eval[(c, addr)] = n_before + 1
             if n_before:
